@@ -600,6 +600,32 @@ theorem reload_split_example :
     (planFrom 1000 [(0, g1)] 0 [p0, p1]).map (·.2.2) = [Origin.stat 0, Origin.fresh] := by
   decide
 
+/-- **a reload while the request is queued is irrelevant to that request.**  `entryArmed` (a request during whose
+    `util.Sleep` another goroutine calls `LoadRules`): the decision, the triggering rule, the requested sleeps and the
+    clock are exactly those of `slotCheck` on the rule list the request started with — old or new, never a mixture —
+    and the controllers afterwards are those of "finish the request, then reload" (to which
+    `reload_no_shared_statistic` applies); without a sleep nothing is reloaded. -/
+theorem reload_while_queued_irrelevant (base : Nat) (armed : Option (List Rule)) (res : String) (args : List Val)
+    (atts : List (String × Val)) (b : Int) (cs : List Ctl) (now : Int) :
+    (entryArmed base armed res args atts b cs now).2.2.1 = (slotCheck res args atts b cs now []).2.2 ∧
+    (entryArmed base armed res args atts b cs now).2.1 = (slotCheck res args atts b cs now []).2.1 ∧
+    ((entryArmed base armed res args atts b cs now).2.2.2 = false →
+      (entryArmed base armed res args atts b cs now).1 = (slotCheck res args atts b cs now []).1) ∧
+    ((entryArmed base armed res args atts b cs now).2.2.2 = true →
+      (slotCheck res args atts b cs now []).2.2.sleeps ≠ [] ∧
+      ∃ rs, armed = some rs ∧
+        (entryArmed base armed res args atts b cs now).1 = reload base (slotCheck res args atts b cs now []).1 rs) := by
+  unfold entryArmed
+  cases armed with
+  | none => simp
+  | some rs =>
+    dsimp only
+    by_cases h : (slotCheck res args atts b cs now []).2.2.sleeps.isEmpty = true
+    · simp [h]
+    · simp only [h]
+      refine ⟨rfl, rfl, by simp, fun _ => ⟨?_, rs, rfl, rfl⟩⟩
+      intro hn; rw [hn] at h; simp at h
+
 /-! ## the hypotheses are satisfiable (non-vacuity): the theorems applied to concrete histories -/
 
 section examples
